@@ -73,12 +73,14 @@ type MapObj struct {
 type Map struct{ M *MapObj }
 
 type ChanObj struct {
-	ID     int
-	Buf    []Value
-	Cap    int
-	Closed bool
-	ET     types.Type
-	Label  string
+	ID          int
+	Buf         []Value
+	Cap         int
+	Closed      bool
+	ET          types.Type
+	Label       string
+	taken       int // values received so far (rendezvous bookkeeping)
+	sendWaiting int
 }
 type Chan struct{ C *ChanObj }
 
